@@ -460,7 +460,14 @@ func (vm *VM) appendSlice(first int8, length int, slice reflect.Value) reflect.V
 			}
 		default:
 			regs := vm.regs.general[vm.fp[3]+Addr(first):]
+			isFunc := slice.Type().Elem().Kind() == reflect.Func
 			for i, j := 0, ol; i < length; i, j = i+1, j+1 {
+				if isFunc && regs[i].IsValid() {
+					if c, ok := regs[i].Interface().(*callable); ok {
+						slice.Index(j).Set(c.Value(vm.env))
+						continue
+					}
+				}
 				slice.Index(j).Set(regs[i])
 			}
 		}
